@@ -16,7 +16,7 @@ LEVEL = "exploration"
 RULE = ("the 14 fuzzy-producing commands x hostile parameter sets x hostile finite inputs (lattice, wild floats 1e-9..1e9, "
         "int64/float64/float32/int32/int16) x shapes rank 1-3 x masks (any finite number or NaN stored underneath them); rasters of 1-2.1 million cells; distinct by (command, n, rank, dtypes, mask class, parameter-"
         "shape class)")
-REQUIRED_COUNTERS = ["range_postconditions", "fuzzy_cells_checked", "quiescent_rechecks", "model_runs", "large_rasters_checked"]
+REQUIRED_COUNTERS = ["range_postconditions", "fuzzy_cells_checked", "quiescent_rechecks", "model_runs", "large_rasters_checked", "program_copies_checked"]
 ASSUMPTIONS = ["inputs finite, magnitudes in 1e-9..1e9 or the dyadic lattice; control points closer than 1e-9 relative (slope overflow) "
                "are not generated", "parameter sets for which the command raises one of its specific errors are not judged",
                "fuzzy inputs to fuzzy operators lie in [-1,1] (what producers guarantee)"]
@@ -214,6 +214,23 @@ def run_model(ctx, case):
         if bad:
             ctx.fail("%s:%s-after-run:in-model" % (type(c).__name__, bad[0]), {"range": bad[1], "command": c.result_name})
             break
+    if fuzzy_results and len(model["commands"]) % 3 == 0:
+        # the fuzzy results as a deep copy of the finished program holds them
+        try:
+            clone = trace.clone_program(prog)
+        except Exception as e:
+            ctx.dontcare("program cannot be deep-copied: %s" % type(e).__name__)
+            return
+        ctx.count("program_copies_checked")
+        for c in fuzzy_results:
+            cc = clone.commands.get(c.result_name)
+            if cc is None or not cc.is_finished:
+                continue
+            ctx.count("quiescent_rechecks")
+            bad = _range_bad(cc.result)
+            if bad:
+                ctx.fail("%s:%s:in-a-copy-of-the-program" % (type(c).__name__, bad[0]), {"range": bad[1], "command": c.result_name})
+                break
 
 
 def run_case(ctx, case):
